@@ -13,7 +13,6 @@ import (
 	"encoding/json"
 	"fmt"
 	"os"
-	"runtime/pprof"
 	"sort"
 	"strings"
 	"sync"
@@ -27,8 +26,6 @@ import (
 	"verif/internal/opdrv"
 	"verif/internal/vstore"
 )
-
-var stopProfile = func() {}
 
 // C10_TRACE=1 prints one line per judged case (development aid, most useful together with --replay).
 var traceCases = os.Getenv("C10_TRACE") != ""
@@ -386,13 +383,6 @@ func (h *harness) runCase(c *combo, cd caseDef, caseIdx int) {
 }
 
 func main() {
-	if p := os.Getenv("C10_PROFILE"); p != "" {
-		if fh, err := os.Create(p); err == nil {
-			_ = pprof.StartCPUProfile(fh)
-			defer pprof.StopCPUProfile()
-			stopProfile = pprof.StopCPUProfile
-		}
-	}
 	run := ev.Start("C10", "fault_enumeration")
 	thorough := run.Tier == ev.Thorough
 	h := &harness{run: run, flows: catalogue(), variants: variantsFor(thorough), quickVar: 3}
@@ -420,10 +410,12 @@ func main() {
 		var w witness
 		if err := json.Unmarshal(run.ReplayWitness(), &w); err != nil || w.Flow == "" {
 			fmt.Printf("INCONCLUSIVE property=C10 replay file has no usable witness\n")
-			return
+			os.Exit(2)
 		}
+		found := false
 		for _, c := range combos {
 			if h.flows[c.fi].Name == w.Flow && opdrv.RouterNames[c.router] == w.Router && h.variants[c.vi].String() == w.Variant {
+				found = true
 				h.baseline(c)
 				// the recorded case first, then the rest of its cell
 				h.runCase(c, caseDef{combo: c.idx, plan: w.Plan}, int(rc))
@@ -431,6 +423,10 @@ func main() {
 					h.runCase(c, cd, i)
 				}
 			}
+		}
+		if !found {
+			fmt.Printf("INCONCLUSIVE property=C10 the replay file names a cell (%s, %s, %s) that this tier does not enumerate\n", w.Router, w.Flow, w.Variant)
+			os.Exit(2)
 		}
 		run.Finish()
 	}
@@ -510,6 +506,5 @@ func main() {
 	if !complete {
 		run.Extra("explanation", fmt.Sprintf("enumeration incomplete: %d unusable fault-free runs, %d faults did not fire, %d of %d cases executed", h.baseBad.Load(), h.notFired.Load(), h.executed.Load(), len(all)))
 	}
-	stopProfile()
 	run.Finish()
 }
